@@ -2,13 +2,13 @@
 //!
 //! A UF stub returns an arbitrary value but remembers (argument bits -> result bits) in a small
 //! static table and assumes equal results for bit-equal arguments: the harness then holds "for
-//! every pure function in place of the callee". Tables are loop-free (16 entries, unrolled).
+//! every pure function in place of the callee". Tables are loop-free (32 entries, unrolled).
 //! Discipline: a harness draws ALL its own symbolic inputs before the first stubbed call, so that
 //! the native replay (which runs the real callee, without stubs) sees the same input prefix.
 use crate::sym::*;
 use crate::util::*;
 
-pub const CAP: usize = 16;
+pub const CAP: usize = 32;
 
 pub struct Table<const K: usize, const R: usize> {
     pub n: usize,
@@ -82,6 +82,22 @@ impl<const K: usize, const R: usize> Table<K, R> {
         chk!(13);
         chk!(14);
         chk!(15);
+        chk!(16);
+        chk!(17);
+        chk!(18);
+        chk!(19);
+        chk!(20);
+        chk!(21);
+        chk!(22);
+        chk!(23);
+        chk!(24);
+        chk!(25);
+        chk!(26);
+        chk!(27);
+        chk!(28);
+        chk!(29);
+        chk!(30);
+        chk!(31);
         // more calls than the table holds would silently lose functional consistency: forbid
         assert!(self.n < CAP, "UF table capacity exceeded");
         macro_rules! put {
@@ -108,6 +124,22 @@ impl<const K: usize, const R: usize> Table<K, R> {
         put!(13);
         put!(14);
         put!(15);
+        put!(16);
+        put!(17);
+        put!(18);
+        put!(19);
+        put!(20);
+        put!(21);
+        put!(22);
+        put!(23);
+        put!(24);
+        put!(25);
+        put!(26);
+        put!(27);
+        put!(28);
+        put!(29);
+        put!(30);
+        put!(31);
         self.n += 1;
         fresh
     }
@@ -138,6 +170,22 @@ impl<const K: usize, const R: usize> Table<K, R> {
         chk!(13);
         chk!(14);
         chk!(15);
+        chk!(16);
+        chk!(17);
+        chk!(18);
+        chk!(19);
+        chk!(20);
+        chk!(21);
+        chk!(22);
+        chk!(23);
+        chk!(24);
+        chk!(25);
+        chk!(26);
+        chk!(27);
+        chk!(28);
+        chk!(29);
+        chk!(30);
+        chk!(31);
         s
     }
 }
@@ -234,4 +282,34 @@ macro_rules! uf_calls {
             $crate::uf::$tab.n
         }
     };
+}
+
+
+// ---------------------------------------------------------------- havoc stubs (over-approximation)
+pub fn havoc_tt<'a: 'a, 'b: 'b>(_x: &'a TwoFloat, _y: &'b TwoFloat) -> TwoFloat {
+    havoc_tf()
+}
+pub fn havoc_tf64<'a: 'a, 'b: 'b>(_x: &'a TwoFloat, _y: &'b f64) -> TwoFloat {
+    havoc_tf()
+}
+pub fn havoc_f64t<'a: 'a, 'b: 'b>(_y: &'a f64, _x: &'b TwoFloat) -> TwoFloat {
+    havoc_tf()
+}
+pub fn havoc_assign_t<'a: 'a>(s: &mut TwoFloat, _r: &'a TwoFloat) {
+    *s = havoc_tf();
+}
+pub fn havoc_assign_f<'a: 'a>(s: &mut TwoFloat, _r: &'a f64) {
+    *s = havoc_tf();
+}
+pub fn havoc_unary(_x: TwoFloat) -> TwoFloat {
+    havoc_tf()
+}
+
+// MulAssign<&TwoFloat> as a UF (for powi's loop)
+pub static mut T_MULASSIGN: Table<4, 2> = Table::new();
+pub fn uf_mul_assign_t<'a: 'a>(s: &mut TwoFloat, r: &'a TwoFloat) {
+    let key = k4(*s, *r);
+    let fresh = fresh2();
+    let v = unsafe { T_MULASSIGN.call(key, fresh) };
+    *s = r2(v);
 }
